@@ -31,7 +31,54 @@ SPECTRA = {
     "d3_001": np.diag([0.0, 0.0, 1.0]), "d3_111": np.diag([1.0, 1.0, 1.0]),
     # non-diagonal with a repeated eigenvalue 0 (eigenvectors: permutation type)
     "d3_perm": np.array([[0.0, 0.0, 0.0], [0.0, 0.5, 0.5], [0.0, 0.5, 0.5]]),
+    "d4_0125": np.diag([0.0, 0.5, 1.0, 2.5]),
 }
+
+# spectra for the concrete map check H0 (dimension 2..5; non-equidistant ones have more distinct differences than sums)
+MAP_SPECTRA = [[1.0, -1.0], [0.5, 0.5], [0.0, 1.0, 3.0], [0.25, 0.25, -0.5], [1.0, 1.0, 1.0], [0.0, 0.5, 1.0, 2.5], [0.0, 1.0, 3.0, 5.0],
+               [0.0, 1.0, 3.0, 6.0], [0.0, 2.0, 3.0, 6.0], [0.5, 0.5, -0.5, -0.5], [0.0, 1.0, 2.0, 3.0], [0.0, 0.0, 1.0, 1.0],
+               [0.0, 1.0, 2.0, 5.0, 11.0], [0.0, 1.0, 1.0, 4.0, 9.0], [-2.0, -1.0, 0.0, 1.0, 2.0], [0.0, 1.0, 3.0, 7.0, 12.0]]
+
+
+class H0(Case):
+    """CONCRETE check (no solver contribution) of the precondition every H1 case relies on: the degeneracy maps the real
+    Bath hands out group exactly the Liouville indices with equal (difference, sum) resp. equal difference, for coupling
+    spectra of dimension 2..5, diagonal and conjugated by a real rotation"""
+    stubs = ()
+    functions = ("Bath.__init__", "bath._row_degeneracy")
+    validate = False
+
+    def __init__(self):
+        self.id = "H0/degeneracy_maps_d2to5"
+        self.bounds = {"d": "2..5", "spectra": len(MAP_SPECTRA), "arithmetic": "IEEE double (12-decimal rounding as in the code)"}
+
+    def run(self, inp):
+        import oqupy.config as _cfg
+        from vf import env
+        obs = []
+        with env.patched({"oqupy.bath.NpDtype": _cfg.NpDtype}):
+            for w in MAP_SPECTRA:
+                d = len(w)
+                for rot in (False, True):
+                    op = np.diag(np.array(w))
+                    if rot:
+                        c, s_ = 0.6, 0.8
+                        R = np.identity(d)
+                        R[0, 0], R[0, 1], R[1, 0], R[1, 1] = c, -s_, s_, c
+                        op = R @ op @ R.T
+                        op = (op + op.T) / 2
+                    bath = oqupy.Bath(op, _DummyCorr())
+                    obs.append(Ob.holds("spectrum %s%s: maps group exactly equal keys" % (w, " (rotated)" if rot else ""), maps_ok(bath), key="maps"))
+        return obs
+
+
+class _DummyCorr(oqupy.bath_correlations.BaseCorrelations):
+    def correlation(self, *a, **k):
+        raise NotImplementedError
+
+    def correlation_2d_integral(self, *a, **k):
+        raise NotImplementedError
+
 
 
 class FieldSystem(oqupy.TimeDependentSystemWithField):
@@ -148,7 +195,7 @@ def cases(tier):
         cs += [H1(m, "sz", 3, 1, True), H1(m, "sz", 3, None), H1(m, "id2", 3, 1), H1(m, "d3_001", 2, 1), H1(m, "d3_012", 2, None)]
     cs += [H1("tempo", "sx", 2, 1), H1("pt", "sx", 2, 1), H1("tempo", "d3_111", 2, 1), H1("pt", "d3_m101", 2, 1),
            H1("tempo", "sz_frac", 2, 1), H1("pt", "sz_frac", 2, 1), H1("mf", "sz_frac", 2, None), H1("pt", "d3_frac_rep", 2, 1),
-           H1("tempo", "d3_frac", 2, 1), H1mf2("sz", "sz_shift", 2, 1), H1mf2("sz_frac", "id2", 2, None)]
+           H1("tempo", "d3_frac", 2, 1), H1mf2("sz", "sz_shift", 2, 1), H1mf2("sz_frac", "id2", 2, None), H1mf2("sz", "d3_001", 2, 1), H0()]
     if tier == "thorough":
         # (the non-diagonal d=3 operator with a repeated eigenvalue "d3_perm" and sigma_x at N=3 give `unknown`:
         #  not used; sigma_x at N=2 and the diagonal d=3 patterns are the stated bound)
